@@ -305,7 +305,15 @@ def rule_rx(R):
     R.ob("rx/propagated", okp, "fill_packet_reader propagates the reader's refusal with `?`", where=fp.span)
 
 
+def rule_rx_latch(R):
+    """an inbound packet beyond the limit ends the connection: the reader's refusal (and every other fatal inbound error)
+    latches the handle before it is returned -- the inbound part of C11's latch rule, as under C08"""
+    from .c08 import rule_latch as _r
+    _r(R)
+
+
 def run(R):
+    R.rule("latch", rule_rx_latch)
     R.rule("pred", rule_pred)
     R.rule("tx", rule_tx)
     R.rule("adv", rule_adv)
